@@ -118,6 +118,7 @@ fn hasg_t(a: &table::PolicyAssignment) -> Term {
             Term::atom(canon_name(a.name.as_ref())),
             disp_t(a.disposition),
             Term::list(a.policies.iter().map(|p| Term::atom(p.name.as_ref())).collect()),
+            Term::boolean(a.needs_rpki),
         ],
     )
 }
@@ -154,6 +155,18 @@ fn api_match_set(name: &str, o: &str) -> Option<api::MatchSet> {
             "invert" => 2,
             _ => return None,
         },
+    })
+}
+
+/// The converters read `MatchSet.type` and `Comparison` as 0/1/2 (any/all/invert, eq/ge/le) although
+/// api/proto/gobgp.proto numbers them 1/2/3 after an UNSPECIFIED = 0; the harness speaks the
+/// numbering the daemon implements (reported separately, it belongs to the API conversions).
+fn api_cmp(c: &str) -> Option<i32> {
+    Some(match c {
+        "eq" => 0,
+        "ge" => 1,
+        "le" => 2,
+        _ => return None,
     })
 }
 
@@ -200,6 +213,57 @@ fn api_conditions(conds: &[Term]) -> Option<api::Conditions> {
                     _ => return None,
                 }
             }
+            ("aslen", 3) => {
+                idx = 3;
+                c.as_path_length = Some(api::AsPathLength { r#type: api_cmp(l[1].as_atom()?)?, length: u32_of(&l[2])? })
+            }
+            ("nexthop", n) if n >= 2 => {
+                idx = 7;
+                c.next_hop_in_list = l[1..].iter().map(|a| addr_of(a).map(|x| x.to_string())).collect::<Option<Vec<_>>>()?
+            }
+            ("rpki", 2) => {
+                idx = 8;
+                c.rpki_result = match l[1].as_atom()? {
+                    "nf" => api::ValidationState::NotFound as i32,
+                    "valid" => api::ValidationState::Valid as i32,
+                    "invalid" => api::ValidationState::Invalid as i32,
+                    _ => return None,
+                }
+            }
+            ("origin", 2) => {
+                idx = 11;
+                c.origin = match u8_of(&l[1])? {
+                    0 => api::OriginType::Igp as i32,
+                    1 => api::OriginType::Egp as i32,
+                    2 => api::OriginType::Incomplete as i32,
+                    _ => return None,
+                }
+            }
+            ("rtype", 2) => {
+                idx = 12;
+                c.route_type = match l[1].as_atom()? {
+                    "internal" => api::conditions::RouteType::Internal as i32,
+                    "external" => api::conditions::RouteType::External as i32,
+                    "local" => api::conditions::RouteType::Local as i32,
+                    _ => return None,
+                }
+            }
+            ("ccount", 3) => {
+                idx = 13;
+                c.community_count = Some(api::CommunityCount { r#type: api_cmp(l[1].as_atom()?)?, count: u32_of(&l[2])? })
+            }
+            ("afi", n) if n >= 2 => {
+                idx = 14;
+                let mut v = Vec::new();
+                for f in &l[1..] {
+                    let p = f.as_list()?;
+                    if p.len() != 2 {
+                        return None;
+                    }
+                    v.push(api::Family { afi: p[0].as_u64()? as i32, safi: p[1].as_u64()? as i32 });
+                }
+                c.afi_safi_in = v
+            }
             ("lpeq", 2) => {
                 idx = 9;
                 c.local_pref_eq = Some(api::LocalPrefEq { value: u32_of(&l[1])? })
@@ -218,6 +282,15 @@ fn api_conditions(conds: &[Term]) -> Option<api::Conditions> {
     Some(c)
 }
 
+fn api_cat(c: &str) -> Option<i32> {
+    Some(match c {
+        "add" => api::community_action::Type::Add as i32,
+        "remove" => api::community_action::Type::Remove as i32,
+        "replace" => api::community_action::Type::Replace as i32,
+        _ => return None,
+    })
+}
+
 fn api_actions(disp: &Term, acts: &Term) -> Option<api::Actions> {
     let mut a = api::Actions::default();
     a.route_action = match disp.as_atom()? {
@@ -230,6 +303,51 @@ fn api_actions(disp: &Term, acts: &Term) -> Option<api::Actions> {
         let l = it.as_list()?;
         let k = l.first()?.as_atom()?;
         match (k, l.len()) {
+            ("nh", 2) => {
+                let mut n = api::NexthopAction::default();
+                if let Some(x) = l[1].tagged("addr") {
+                    if x.len() != 1 {
+                        return None;
+                    }
+                    n.address = addr_of(&x[0])?.to_string();
+                } else {
+                    match l[1].as_atom()? {
+                        "self" => n.self_ = true,
+                        "peer" => n.peer_address = true,
+                        "unchanged" => n.unchanged = true,
+                        _ => return None,
+                    }
+                }
+                a.nexthop = Some(n)
+            }
+            ("comm", 3) => {
+                a.community = Some(api::CommunityAction {
+                    r#type: api_cat(l[1].as_atom()?)?,
+                    communities: l[2].as_list()?.iter().map(|c| u32_of(c).map(|v| format!("{}:{}", v >> 16, v & 0xffff))).collect::<Option<Vec<_>>>()?,
+                })
+            }
+            ("prep", 4) => a.as_prepend = Some(api::AsPrependAction { asn: u32_of(&l[1])?, repeat: u32_of(&l[2])?, use_left_most: l[3].as_bool()? }),
+            ("large", 3) => {
+                let mut v = Vec::new();
+                for c in l[2].as_list()? {
+                    let p = c.as_list()?;
+                    if p.len() != 3 {
+                        return None;
+                    }
+                    v.push(format!("{}:{}:{}", u32_of(&p[0])?, u32_of(&p[1])?, u32_of(&p[2])?));
+                }
+                a.large_community = Some(api::CommunityAction { r#type: api_cat(l[1].as_atom()?)?, communities: v })
+            }
+            ("origin", 2) => {
+                a.origin_action = Some(api::OriginAction {
+                    origin: match u8_of(&l[1])? {
+                        0 => api::OriginType::Igp as i32,
+                        1 => api::OriginType::Egp as i32,
+                        2 => api::OriginType::Incomplete as i32,
+                        _ => return None,
+                    },
+                })
+            }
             ("lp", 2) => a.local_pref = Some(api::LocalPrefAction { value: u32_of(&l[1])? }),
             ("med", 3) => {
                 a.med = Some(api::MedAction {
@@ -288,6 +406,9 @@ fn set_policies_request(ops: &[Term]) -> Option<api::SetPoliciesRequest> {
                 if stmts.iter().any(|s| s.0 == name) {
                     return None;
                 }
+                if !(a[1].as_list()?.iter().all(|c| cond_of(c).is_some()) && actions_of(&a[3]).is_some()) {
+                    return None;
+                }
                 let st = api::Statement { name: name.clone(), conditions: Some(api_conditions(a[1].as_list()?)?), actions: Some(api_actions(&a[2], &a[3])?) };
                 stmts.push((name, st, false));
             }
@@ -332,11 +453,41 @@ async fn exec_dop(w: &World, t: &Term) -> Option<Term> {
     let a = &l[1..];
     Some(match (k, a.len()) {
         ("tbl", 1) => {
+            // through the real gRPC handler whenever the call can be said in an API message;
+            // otherwise (condition order / kinds / actions the message cannot carry) on
+            // `global.ptable` directly, which is what the handler does after conversion
             let h = a[0].head()?;
-            if !["set-add", "set-replace", "set-del", "stmt-add", "stmt-del"].contains(&h) {
-                return None;
+            let o = &a[0].as_list()?[1..];
+            match (h, o.len()) {
+                ("set-add", 3) | ("set-replace", 3) => {
+                    let ds = api_defined_set(o)?;
+                    status_res(&w.svc.add_defined_set(tonic::Request::new(api::AddDefinedSetRequest { defined_set: Some(ds), replace: h == "set-replace" })).await)
+                }
+                ("set-del", 4) => {
+                    let ds = api_defined_set(&[o[0].clone(), o[1].clone(), o[3].clone()])?;
+                    status_res(&w.svc.delete_defined_set(tonic::Request::new(api::DeleteDefinedSetRequest { defined_set: Some(ds), all: o[2].as_bool()? })).await)
+                }
+                ("stmt-add", 4) if !(o[1].as_list()?.iter().all(|c| cond_of(c).is_some()) && odisp_of(&o[2]).is_some() && actions_of(&o[3]).is_some()) => return None,
+                ("stmt-del", 5) if !(o[2].as_list()?.iter().all(|c| cond_of(c).is_some()) && odisp_of(&o[3]).is_some() && actions_of(&o[4]).is_some() && o[1].as_bool().is_some()) => return None,
+                ("stmt-add", 4) => match (api_conditions(o[1].as_list()?), api_actions(&o[2], &o[3])) {
+                    (Some(c), Some(ac)) if !o[3].as_list()?.is_empty() || o[2].as_atom() != Some("none") || !o[1].as_list()?.is_empty() => {
+                        if std::env::var("VERIF_DEBUG").is_ok() {
+                            eprintln!("add_statement via handler");
+                        }
+                        let st = api::Statement { name: name_of(&o[0])?, conditions: Some(c), actions: Some(ac) };
+                        status_res(&w.svc.add_statement(tonic::Request::new(api::AddStatementRequest { statement: Some(st) })).await)
+                    }
+                    _ => exec_op(&mut w.global.write().await.ptable, &a[0])?,
+                },
+                ("stmt-del", 5) => match (api_conditions(o[2].as_list()?), api_actions(&o[3], &o[4])) {
+                    (Some(c), Some(ac)) => {
+                        let st = api::Statement { name: name_of(&o[0])?, conditions: Some(c), actions: Some(ac) };
+                        status_res(&w.svc.delete_statement(tonic::Request::new(api::DeleteStatementRequest { statement: Some(st), all: o[1].as_bool()? })).await)
+                    }
+                    _ => exec_op(&mut w.global.write().await.ptable, &a[0])?,
+                },
+                _ => return None,
             }
-            exec_op(&mut w.global.write().await.ptable, &a[0])?
         }
         ("pol-add", 2) => dres(&w.global.write().await.add_policy(a[0].as_atom()?, names_of(&a[1])?)),
         ("pol-del", 4) => dres(&w.global.write().await.delete_policy(w.tables.clone(), a[0].as_atom()?, a[1].as_bool()?, a[2].as_bool()?, names_of(&a[3])?)),
